@@ -303,7 +303,7 @@ def check_verify_loop(cfg, w, rep, lf, recv_open):
             tu = body.blocks[u].term
             good = False
             if tu.k == "switch" and tu.discr.place is not None:
-                for o in prog.idx(body).resolve_place(tu.discr.place, IDENT):
+                for o in prog.resolve_pl(body, tu.discr.place, IDENT):
                     if o.kind == "binop" and o.info.j["op"] in ("Eq", "Ne"):
                         ops = o.info.ops
                         consts = [x for x in ops if x.is_const and x.const_val == 0]
@@ -365,7 +365,7 @@ def check_stream_impl(cfg, w, rep, lf):
             continue
         tu = bb.term
         if tu.k == "switch" and tu.discr.place is not None:
-            for o in prog.idx(body).resolve_place(tu.discr.place, IDENT):
+            for o in prog.resolve_pl(body, tu.discr.place, IDENT):
                 if o.kind == "binop" and o.info.j["op"] in ("Eq", "Ne", "Gt", "Le", "Lt", "Ge"):
                     ops = o.info.ops
                     if any(x.is_const and x.const_val == 0 for x in ops):
